@@ -157,6 +157,9 @@ class Ctx:
         os.makedirs(REPLAYS, exist_ok=True)
         os.makedirs(BUILD, exist_ok=True)
         self.kf = load_known_findings()
+        for f in os.listdir(REPLAYS):
+            if f.startswith(self.prop + "-") and not replay:
+                os.remove(os.path.join(REPLAYS, f))
         # remove stale evidence so that a crash cannot leave an old file behind
         try:
             os.remove(self.evidence_path())
